@@ -344,7 +344,8 @@ def generic_search(mod, ctx, known, classes):
                 terms = [mod.coq_case(c, o) for c, o in zip(chunk, observed)]
             except Exception:
                 return None
-            results, _errors = eval_cases(pid, mod.IMPORTS, mod.CASE_TYPE, mod.RUNNER, terms, tag="search")
+            results, _errors = eval_cases(pid, mod.IMPORTS, mod.CASE_TYPE, mod.RUNNER, terms, shard=getattr(mod, "SHARD", 400),
+                                          tag="search")
             for i, c in sorted(results):
                 if c == 2:
                     return chunk[i], observed[i]
@@ -443,7 +444,7 @@ def run_property(mod, ctx, replay_case=None):
     corr_unavailable = proof_broken and not os.path.exists(os.path.join(THEORIES, pid, "Corr.vo"))
     results, errors = ([], [])
     if not corr_unavailable:
-        results, errors = eval_cases(pid, mod.IMPORTS, mod.CASE_TYPE, mod.RUNNER, coq_terms)
+        results, errors = eval_cases(pid, mod.IMPORTS, mod.CASE_TYPE, mod.RUNNER, coq_terms, shard=getattr(mod, "SHARD", 400))
     bad_model = sorted({i for i, c in results if c == 1})
     bad_spec = sorted({i for i, c in results if c == 2})
     bad_known = {}
